@@ -142,6 +142,7 @@ func trValidateOne(repo string, p vpkg) (string, error) {
 	recv := validate.Recv.List[0].Names[0].Name
 	fields := map[string]bool{} // name -> isString
 	fieldDef := map[string]string{}
+	nonNeg := map[string]bool{} // governed values that may be zero
 	out := ""
 	for _, st := range validate.Body.List {
 		switch x := st.(type) {
@@ -182,6 +183,13 @@ func trValidateOne(repo string, p vpkg) (string, error) {
 						if _, isNum := consts[rhs]; isNum {
 							fields[f] = false
 							sets = append(sets, fmt.Sprintf("%s := %s", f, rhs))
+							continue
+						}
+						// a value that may be zero but not negative: `if cfg.F < 0 { validcfg.F = 0 }`
+						if lit, ok := as.Rhs[0].(*ast.BasicLit); ok && lit.Kind == token.INT && lit.Value == "0" && cond == fmt.Sprintf("%s.%s < 0", recv, f) {
+							fields[f] = false
+							nonNeg[f] = true
+							sets = append(sets, fmt.Sprintf("%s := 0", f))
 							continue
 						}
 						if nonEmpty, ok := strConsts[rhs]; ok && nonEmpty {
@@ -269,6 +277,8 @@ func trValidateOne(repo string, p vpkg) (string, error) {
 	for _, f := range fl {
 		if fields[f] {
 			conj = append(conj, fmt.Sprintf("c.%s_empty = false", f))
+		} else if nonNeg[f] {
+			conj = append(conj, fmt.Sprintf("0 ≤ c.%s", f))
 		} else {
 			conj = append(conj, fmt.Sprintf("0 < c.%s", f))
 		}
